@@ -38,7 +38,7 @@ theorem sem_forward {p : Fun.CheckedProgram} {q : Core.Prog} (hc : compileProg p
       ∃ m r', Core.run q args m = ⟨(Fun.run p args n).out, r'⟩ ∧ ResMatch (Fun.run p args n).res r') ∧
     (∀ n, ∃ m, (Fun.run p args n).out <+: (Core.run q args m).out) := by
   have X := ctx_of_compileProg hc hp hq
-  obtain ⟨hcod, hdefsok, hnd, hmainprd⟩ := progOk_facts hp
+  obtain ⟨hdefsok, hnd, hmainprd⟩ := progOk_facts hp
   obtain ⟨hqc, hdefs⟩ := compileProg_defs hc
   unfold Fun.run Fun.initState
   cases hf : Fun.findDef p "main" with
@@ -53,7 +53,7 @@ theorem sem_forward {p : Fun.CheckedProgram} {q : Core.Prog} (hc : compileProg p
       obtain ⟨ul0, r, hr, hrm⟩ := (compileDefs_mem q.codataTypes p.defs _ [] q.defs hdefs).2 d hdm
       have hnm : (d.name == "main") = true := by simp [hname]
       simp only [hnm, if_true] at hr
-      obtain ⟨D, x0, τ, hD, hDn, hDc, hcomp⟩ := compileMain_facts hr (hdefsok d hdm) rfl hrm
+      obtain ⟨D, x0, τ, hD, hDn, hDc, hcomp, hτ⟩ := compileMain_facts X.cod hr (hdefsok d hdm) rfl hrm
       obtain ⟨hgood, hnodup, hclosed, _, _⟩ := defOk_facts (hdefsok d hdm)
       -- the Core machine finds the same definition
       have hid0 := compileDefs_id0 q.codataTypes p.defs _ [] q.defs hdefs (by simp)
@@ -68,7 +68,7 @@ theorem sem_forward {p : Fun.CheckedProgram} {q : Core.Prog} (hc : compileProg p
         cases hn' : D'.name with
         | mk nm id => rw [hn'] at h1 h2; simp at h1 h2; rw [h1, h2]
       -- its entry environment
-      obtain ⟨ρ, hbind, henv⟩ := EnvRel.bindAll (G := GP) (q := q) (n := 0) (xs := fv d.body)
+      obtain ⟨ρ, hbind, henv⟩ := EnvRel.bindAll (G := GP p) (q := q) (n := 0) (xs := fv d.body)
         (env := []) (env' := env) (ρ0 := []) (ctx := d.ctx) (vs := args.map .int) (Vs := args.map .int)
         (.of_get fun y hy => by
           obtain ⟨h1, h2⟩ := List.mem_filter.1 hy
@@ -89,10 +89,10 @@ theorem sem_forward {p : Fun.CheckedProgram} {q : Core.Prog} (hc : compileProg p
         obtain ⟨b', hb', e⟩ := X.closed D hD y hy
         rw [hDc] at hb'
         exact absurd e (hne b' hb')
-      have hR : R q (.eval d.body env []) ⟨D.body, ρ, [], 0⟩ :=
+      have hR : R p q (.eval d.body env []) ⟨D.body, ρ, [], 0⟩ :=
         SRel.eval (ρ0 := ρ) hgood hcomp henv
           (.mk (cv := .mutilde ρ ⟨x0, 0⟩ (.exit (.var .prd ⟨x0, 0⟩ τ) τ)) rfl .main trivial
-            (by rw [tfv_main_cont]; intro b hb; simp at hb))
+            (by rw [tfv_main_cont]; intro b hb; simp at hb) hτ)
           hbd (.refl _ _)
       have hfw := fun n => chunkSim_forward (eval_sim X) n _ _ [] hR rfl
       exact ⟨fun n => (hfw n).1, fun n => (hfw n).2⟩
